@@ -79,6 +79,14 @@ impl From<Adv> for u32 { fn from(a: Adv) -> u32 { a.0 as u32 } }
 pub struct W(pub i32);
 impl From<i32> for W { fn from(v: i32) -> Self { W(v.wrapping_mul(2)) } }
 
+/// reachable from integer literals of several types: which From impl runs depends on the literal's own type (its suffix)
+#[derive(Clone, Copy, PartialEq, Eq, Debug)]
+pub enum Num { U8(u8), U16(u16), I32(i32), None }
+impl Default for Num { fn default() -> Self { Num::None } }
+impl From<u8> for Num { fn from(v: u8) -> Self { Num::U8(v) } }
+impl From<u16> for Num { fn from(v: u16) -> Self { Num::U16(v) } }
+impl From<i32> for Num { fn from(v: i32) -> Self { Num::I32(v) } }
+
 #[derive(Clone, Copy, PartialEq, Eq, PartialOrd, Ord, Debug)]
 pub enum Nest { X, Y }
 
@@ -255,7 +263,7 @@ impl Src for RandSrc {
 /// structural sameness (f32/f64 by bits) used by value oracles
 pub trait Same { fn same(&self, o: &Self) -> bool; }
 macro_rules! same_eq { ($($t:ty),*) => { $(impl Same for $t { fn same(&self, o: &Self) -> bool { self == o } })* } }
-same_eq!(u8, u16, u32, u64, usize, i8, i16, i32, i64, isize, bool, char, (), &'static str, String, crate::m::K, crate::m::W, Option<u8>, [u8; 4], [u8; 2], &'static u8, &'static [u8; 2], crate::m::Adv, Option<bool>);
+same_eq!(u8, u16, u32, u64, usize, i8, i16, i32, i64, isize, bool, char, (), &'static str, String, crate::m::K, crate::m::W, Option<u8>, [u8; 4], [u8; 2], &'static u8, &'static [u8; 2], crate::m::Adv, Option<bool>, crate::m::Num);
 impl Same for f32 { fn same(&self, o: &Self) -> bool { self.to_bits() == o.to_bits() } }
 impl Same for f64 { fn same(&self, o: &Self) -> bool { self.to_bits() == o.to_bits() } }
 impl<const ID: usize> Same for crate::m::Ctr<ID> { fn same(&self, o: &Self) -> bool { self.0 == o.0 } }
@@ -267,6 +275,22 @@ impl Rec {
     pub fn new() -> Self { Rec { buf: [0; 32], n: 0, overflow: false } }
     #[inline(always)]
     fn push(&mut self, b: u8) { if (self.n as usize) < 32 { self.buf[self.n as usize] = b; self.n += 1; } else { self.overflow = true; } }
+    /// the record `k` (the non-ignored fields fed in declaration order) is the beginning or the end of this record:
+    /// whatever else is fed (the variant tag) comes before or after the fields, and the fields keep their order
+    pub fn framed(&self, k: &Rec) -> bool {
+        if k.n > self.n { return false; }
+        let off = (self.n - k.n) as usize;
+        let (mut pre, mut suf) = (true, true);
+        let mut i = 0usize;
+        while i < 32 {
+            if i < k.n as usize {
+                if self.buf[i] != k.buf[i] { pre = false; }
+                if self.buf[(off + i) & 31] != k.buf[i] { suf = false; }
+            }
+            i += 1;
+        }
+        pre || suf
+    }
 }
 impl core::hash::Hasher for Rec {
     fn finish(&self) -> u64 { 0 }
